@@ -5,13 +5,15 @@
 (* only if the block and its predecessor are both in their original places.  The decrypt           *)
 (* algorithm has its checks as flags so that each can be switched off (spec mutation).             *)
 EXTENDS Naturals, Sequences, FiniteSets, TLC
-CONSTANTS N, CheckMDC, CheckPrefix, CheckKey
+CONSTANTS N, CheckMDC, CheckPrefix, CheckKey,
+          AcceptSED        \* TRUE: a container without integrity protection (tag 9) is decrypted like any other (the code as it is: open finding 55)
 Src == {"A", "B"}
 Blk == [src : Src \cup {"X"}, pos : 0..N]          \* X = garbage the attacker made up
-VARIABLES ct, key, result, steps
-vars == <<ct, key, result, steps>>
+VARIABLES ct, key, result, steps,
+          container        \* "seipd" (tag 18, ends with the MDC) or "sed" (tag 9: the same ciphertext blocks re-packed, no MDC is looked for)
+vars == <<ct, key, result, steps, container>>
 Orig(s) == [i \in 1..N |-> [src |-> s, pos |-> i]]
-Init == ct = Orig("A") /\ key = "right" /\ result = "none" /\ steps = 0
+Init == ct = Orig("A") /\ key = "right" /\ result = "none" /\ steps = 0 /\ container = "seipd"
 Garbage == [src |-> "X", pos |-> 0]
 \* ---- attacker
 Flip(i) == i \in 1..Len(ct) /\ ct' = [ct EXCEPT ![i] = Garbage]
@@ -27,8 +29,11 @@ Attack == /\ result = "none" /\ steps < 2
              \/ \E i, j \in 1..N : Swap(i, j)
              \/ \E at \in 1..N : Splice(at)
              \/ ReplaceAll
-          /\ steps' = steps + 1 /\ UNCHANGED <<key, result>>
-WrongKey == result = "none" /\ key = "right" /\ key' = "wrong" /\ UNCHANGED <<ct, result, steps>>
+          /\ steps' = steps + 1 /\ UNCHANGED <<key, result, container>>
+\* the attacker re-packs the ciphertext blocks as a packet without integrity protection (the session-key packets stay as they are)
+Downgrade == /\ result = "none" /\ steps < 2 /\ container = "seipd"
+             /\ container' = "sed" /\ steps' = steps + 1 /\ UNCHANGED <<ct, key, result>>
+WrongKey == result = "none" /\ key = "right" /\ key' = "wrong" /\ UNCHANGED <<ct, result, steps, container>>
 \* ---- decryption (CFB): content of plaintext block i
 Plain(i) == IF key = "wrong" THEN <<"junk", 0>>
             ELSE IF ct[i].src = "X" THEN <<"junk", 0>>
@@ -39,14 +44,15 @@ MDCPasses == \E s \in Src : Whole(s)                   \* an ideal hash: the cod
 PrefixPasses == Len(ct) >= 1 /\ Plain(1) # <<"junk", 0>>
 KeyPasses == key = "right"                             \* session-key checksum / unwrap integrity
 Decrypt == /\ result = "none"
-           /\ result' = IF (CheckKey /\ ~KeyPasses) \/ (CheckPrefix /\ ~PrefixPasses) \/ (CheckMDC /\ ~MDCPasses) \/ Len(ct) = 0
+           /\ result' = IF (CheckKey /\ ~KeyPasses) \/ (CheckPrefix /\ ~PrefixPasses) \/ (CheckMDC /\ container = "seipd" /\ ~MDCPasses) \/ Len(ct) = 0
+                           \/ (container = "sed" /\ ~AcceptSED)
                         THEN "raise"
                         ELSE IF \E s \in Src : Whole(s) THEN (CHOOSE s \in Src : Whole(s)) ELSE "other-plaintext"
-           /\ UNCHANGED <<ct, key, steps>>
-Next == Attack \/ WrongKey \/ Decrypt
+           /\ UNCHANGED <<ct, key, steps, container>>
+Next == Attack \/ Downgrade \/ WrongKey \/ Decrypt
 Spec == Init /\ [][Next]_vars
 \* ---- property
 Integrity == result \in {"none", "raise", "A", "B"}
 WrongKeyRaises == (key = "wrong" /\ result # "none") => result = "raise"
-UntouchedDecrypts == (result # "none" /\ ct = Orig("A") /\ key = "right") => result = "A"
+UntouchedDecrypts == (result # "none" /\ ct = Orig("A") /\ container = "seipd" /\ key = "right") => result = "A"
 =============================================================================
